@@ -21,10 +21,12 @@ RULE = ('operation histories on 1-3 IOQueues and 0-2 IOStacks sharing one Memory
         'beyond IOV_MAX entries, Read/Pop/Peek/move, PerformWrite with a writev that accepts all it is offered); every observable compared after every op; non-trivial = at '
         'least one byte written and one byte read / peeked / accepted by the descriptor; distinct = distinct model output line')
 ASSUMPTIONS = ['operator new does not fail',
-               'the THEOREMS are about buffers sharing one pool; histories over two pools are covered by the executable model '
-               'Multi.v and the correspondence check only (bytes / Size / Empty / iovec must agree with the model, i.e. be conserved; '
-               'the pool counters follow known finding C15-crosspool, theorem c15_crosspool_refuted);'
-               ' the interposed writev accepts any number of iovec entries (a real kernel returns EINVAL above IOV_MAX = the scripted '
+               'several pools: c15_multi_refines / c15_multi_accounting / c15_multi_buffers prove conservation, Size, iovec and the exact '
+               'accounting (totals over all pools; per pool up to the migrated blocks) for the block-level model Multi.v over any number '
+               'of pools with blocks of mixed capacities, for histories without Purge; the per-pool clause allocated = free + held is '
+               'false there (known finding C15-crosspool, c15_crosspool_refuted incl. the Purge counter wrap); sender / stream theorems '
+               'are stated for one pool;'
+              ' the interposed writev accepts any number of iovec entries (a real kernel returns EINVAL above IOV_MAX = the scripted '
                'error path); AppendMove is never called with the queue itself (iterates a deque while pushing to it)',
                'lengths and counters are unbounded naturals in the block-level model; the only unsigned-int sums that can wrap '
                '(Size(), hence LimitReached(), and m_blocks_allocated) are treated explicitly: c15_size32 states Size() modulo 2^32 '
@@ -54,7 +56,9 @@ LEVEL_TEXT = ('Coq theorems over an executable, block-level model of MemoryBlock
               'of partial / zero / failed writes the bytes the descriptor accepted followed by the pending bytes are exactly the '
               'accepted messages in order and the descriptor is registered for writing iff bytes are pending; stream write/read '
               'round trips return the values written for every block size.  Size() modulo 2^32 is stated with an explicit guard. '
-              'Known finding (c15_crosspool_refuted): buffers on different pools break the pool accounting clause. '
+              'The same refinement, Size and iovec theorems are proved over any number of pools with blocks of mixed capacities '
+              '(c15_multi_*), with the accounting that is true there: totals balance, each pool is off by exactly the blocks that '
+              'migrated.  Known finding (c15_crosspool_refuted): buffers on different pools break the per-pool accounting clause. '
               'The model is tied to the C++ by a differential correspondence check comparing every observable after every operation.')
 LEVEL_NOTE = ('Trusted: Coq kernel, extraction (ExtrOcamlBasic), OCaml/C++ glue, generator coverage of the '
               'correspondence; model = code is validated by differential testing (ASan/UBSan build of the working tree), '
